@@ -56,4 +56,73 @@ From AC.gen Require Import StateFields StoreSites.
 From AC.proofs Require Import GenFactsOK.
 Import ListNotations." \
   no_param_store_while_stepping stepping_roots_closed solution_stores_state_only state_stores_declared th_fc_Adj_only_reassigned reset_crop_fields_whitelisted stores_allowed ;;&
+C16|all) $MK C16 "C16 — every valid configuration runs to completion with finite outputs (the part a theorem can carry): catalogue obligations over the crop table regenerated from /repo, exact classification of initialisation rejections, termination of the run loop and of the profile deepening, definedness (no modelled exception, no division by zero) of every process model under well-formedness." "$BASE
+From AC Require Import Clock.
+From AC.gen Require Import CropCatalogue.
+From AC.Init Require Import Calendar SoilBuild.
+From AC.Water Require Import RootZone RainIrr Infiltration Drainage Groundwater Evaporation Transpiration.
+From AC.Crop Require Import Canopy Roots Yield.
+From AC.proofs Require Import ProfR KernelsR CatalogueR ClockP CalendarP SoilBuildR RainIrrR InfiltrationR DrainageR GroundwaterR EvaporationR TranspirationR CanopyR YieldR." \
+  CatalogueR.catalogue_row_ok17 CatalogueR.crop_catalogue_length YieldR.catalogue_yield_ok YieldR.catalogue_YldWC_refuted CalendarP.calendar_init_error_cases CalendarP.calendar_init_defined CalendarP.calendar_init_ok CalendarP.no_planting_date_refuted CalendarP.one_day_window_refuted ClockP.run_till_terminates ClockP.perform_ok SoilBuildR.deepen_terminates SoilBuildR.texture_ordered_refuted \
+  DrainageR.drainage_defined InfiltrationR.infiltration_defined GroundwaterR.check_defined GroundwaterR.capillary_defined GroundwaterR.check_then_inflow_defined EvaporationR.soil_evaporation_defined TranspirationR.transpiration_defined YieldR.biomass_defined YieldR.harvest_index_defined CanopyR.canopy_cover_defined RainIrrR.rp_split_defined KernelsR.gdd_defined KernelsR.kst_defined ;;&
+C18|all) $MK C18 "C18 — soil profile and initial water content are built as specified (model Init/SoilBuild.v: Soil / add_layer / add_layer_from_texture / fill_nan / deepening / initial water content; pandas operations are list functions tied by the Linit correspondence)." "$BASE
+From AC.Init Require Import SoilBuild.
+From AC.proofs Require Import ProfR SoilBuildR." \
+  build_ordered build_wf_geometry build_layers_contiguous build_wf iwc_layer_spec iwc_layer_in_bounds iwc_in_bounds_refuted iwc_depth_spec deepen_reaches deepen_preserves deepen_terminates deepen_sums deepen_geometry_refuted texture_ordered_partial texture_ordered_refuted ;;&
+C20|all) $MK C20 "C20 — disabled features and neutral settings are inert: two-configuration equalities on the process models." "$BASE
+From AC.Init Require Import Calendar.
+From AC.Water Require Import RootZone RainIrr Infiltration Evaporation.
+From AC.Crop Require Import Roots.
+From AC.proofs Require Import ProfR InertR EvaporationR RootsR RainIrrR CalendarP." \
+  EvaporationR.mulch_neutral EvaporationR.mulch_off_inert EvaporationR.mulch_off_inert\' InertR.rainfall_partition_bunds_off_inert InertR.infiltration_bunds_off_inert InertR.irr_method_inert_0 InertR.irr_method_inert_1 InertR.irr_method_inert_2 InertR.irr_method_inert_3 InertR.irr_method_inert_4 InertR.irr_method_inert_5 InertR.irr_method_neutral InertR.irr_season_max0 InertR.infiltration_eff_inert RainIrrR.irr_rainfed_zero RainIrrR.irr_net_zero RootsR.pre_irrigation_inert CalendarP.default_harvest_explicit ;;&
+C07|all) $MK C07_calendar "C07 (dates and season list) — the Gregorian day-number functions are mutually inverse and order-preserving for ALL integers; the season list computed at initialisation starts with the first configured planting day on or after the start date, continues in consecutive years, and always satisfies ClockP.wf_clock (the hypothesis of the clock theorems in C07.v).  Model Init/Calendar.v; no axioms." "From Coq Require Import ZArith List Bool Lia.
+From AC Require Import Clock.
+From AC.Init Require Import Calendar.
+From AC.proofs Require Import ClockP CalendarP.
+Import ListNotations.
+Local Open Scope Z_scope." \
+  civil_roundtrip civil_from_days_valid civil_roundtrip_valid date_order date_order_iff season_list_closed season_list_spec season_list_wf season_list_nonempty season_list_error_iff no_planting_iff n_steps_pos initial_season_counter_spec calendar_init_ok default_harvest_covers_maturity default_harvest_long_crop_refuted ;;&
+C11|all) $MK C11 "C11 — inputs are not consumed by a run (the part a theorem can carry): the write-backs of initialisation into user objects are enumerated (store-site table regenerated from /repo), and initialising again from the written-back objects gives the same internal structures (weather binding, CO2, default harvest date)." "From Coq Require Import Reals ZArith String List Bool.
+From AC Require Import Num RInst Params.
+From AC.gen Require Import StateFields StoreSites.
+From AC.Init Require Import Inputs Calendar.
+From AC.proofs Require Import GenFactsOK InputsP CalendarP.
+Import ListNotations." \
+  GenFactsOK.stores_allowed GenFactsOK.stores_allowed_In GenFactsOK.escaped_defaults_never_written_in_place GenFactsOK.no_store_on_default_args InputsP.init_idempotent_weather InputsP.bind_as_table InputsP.bind_dates_in_window InputsP.co2_init_idempotent CalendarP.default_harvest_explicit ;;&
+C14|all) $MK C14_inputs "C14 (weather records outside the window) — binding the weather table to the window depends only on the rows inside the window." "From Coq Require Import Reals ZArith List Bool.
+From AC Require Import Num RInst Params.
+From AC.Init Require Import Inputs Calendar.
+From AC.proofs Require Import InputsP CalendarP.
+Import ListNotations." \
+  InputsP.bind_extra_rows InputsP.bind_ok_spec InputsP.bind_positional CalendarP.clip_weather_In CalendarP.clip_weather_all ;;&
+C15|all) $MK C15 "C15 — weather is bound by date and by column name (model Init/Inputs.v: clip by the Date column, select the five columns by name, step k reads row k); holds for every number type." "From Coq Require Import Reals ZArith List Bool.
+From AC Require Import Num RInst Params.
+From AC.Init Require Import Inputs.
+From AC.proofs Require Import InputsP.
+Import ListNotations." \
+  bind_perm bind_extra_col bind_reindex bind_extra_rows bind_ok_spec bind_positional bind_by_date bind_by_date_length ;;&
+C13|all) $MK C13_schedule "C13 (schedule) — the dated irrigation schedule is re-indexed onto the simulation days exactly: day s+i gets the depth scheduled for that date, 0 otherwise; dates outside the window are dropped." "From Coq Require Import Reals ZArith List Bool.
+From AC Require Import Num RInst Params.
+From AC.Init Require Import Inputs.
+From AC.proofs Require Import InputsP.
+Import ListNotations." \
+  schedule_reindex_ok_iff schedule_reindex_spec schedule_outside_dropped irr_schedule_other ;;&
+C19|all) $MK C19_series "C19 (water-table series) — the daily water-table depth follows the configured observations: step function (Constant) or linear interpolation by date between consecutive observations, first/last depth held outside them (Variable)." "From Coq Require Import Reals ZArith List Bool Sorted.
+From AC Require Import Num RInst Params.
+From AC.Init Require Import Inputs.
+From AC.proofs Require Import InputsP.
+Import ListNotations." \
+  gw_constant_spec obs_sorted_lookup obs_sorted_sorted gw_series_variable gw_variable_on_obs gw_variable_before gw_variable_after gw_variable_between gw_variable_defined gw_variable_spec gw_series_range ;;&
+DAY|all)
+DAYREQ="From Coq Require Import Reals ZArith String List Bool.
+From AC Require Import Num RInst Params Clock Day.
+From AC.gen Require Import StateFields.
+From AC.proofs Require Import ProfR GenFactsOK DayP.
+Import ListNotations."
+$MK C01_day "C01 (one day) — IF the processes satisfy their individual balance statements (the per-process theorems of C01.v, as hypotheses CallsBalance about that day's calls) THEN the rows written by the day's orchestration close the balance: change in storage + ponding = Infl + net irrigation + CRactual + GwIn - DeepPerc - Es - Tr.  Model Day.v (plumbing of run_single_timestep), for EVERY choice of the processes." "$DAYREQ" day_balance day_balance_all row_wiring
+$MK C03_day "C03 (one day) — if every process preserves in_bounds and the ponding bound then so does the day, including every intermediate th/surf handed to a process (Day.v, every Procs)." "$DAYREQ" day_bounds
+$MK C04_day "C04/C05/C13 (off-season wiring) — outside a growing season the orchestration itself writes IrrDay = 0, DryYield = FreshYield = 0, gdd_cum = 0, dap = 0 and hands gs = false to every process (Day.v, every Procs)." "$DAYREQ" off_season_wiring day_step_off_season
+$MK C06_day "C06 (rows and summary) — in the crop-growth row written by the day: DryYield = B/100*HIadj, FreshYield = DryYield/(YldWC/100), YieldPot = B_ns/100*HI; the summary row repeats exactly those values and the seasonal irrigation counter (Day.v, every Procs)." "$DAYREQ" DayP.yield_identities=row_yield_identities summary_values day_step_summary row_wiring
+$MK C08_day "C08 (reset and dead fields) — the reset assigns exactly the fields of the regenerated reset list and leaves every other field unchanged; the first day of a season does not depend on the 19 carried fields that are blanked by proj (under four named per-process hypotheses) (Day.v)." "$DAYREQ" reset_fields_match reset_frame reset_restores_water start_season_clock proj_list_carried carried_ok_proj_or_live proj_frame day1_dead
+$MK C12_day "C12 (frame) — the reset changes only the listed state fields; parameters, profile and weather are inputs of day_proc that do not occur in its result type." "$DAYREQ" reset_frame reset_frame_off_season reset_fields_match ;;&
 esac
